@@ -69,6 +69,8 @@ change applied, (b) demo.py fails with the change, (c) demo.py passes on the cle
 Python to use: `/venv/bin/python` (numpy, scipy, pint, pytest installed; there is no network).
 Note pyPRISM is not installed as a package: it is imported from the current directory.
 
+Never use `git stash` (the stash is shared between all worktrees of this repository and other engineers work in
+sibling worktrees): to set a change aside use `git diff > file; git checkout -- .` and `git apply file`.
 Leave the worktree CLEAN (`git -C @WT@ checkout -- .`, no stray files) when you are done.
 Your final message: for each change, one short paragraph (what, where, what it needs to manifest,
 confirmation of a/b/c).
